@@ -133,6 +133,22 @@ Theorem C13_mode_order :
 Proof. exact mode_order_is_measurement_order. Qed.
 Print Assumptions C13_mode_order.
 
+(* 7. tdm/utils.py vacuum_padding (model `vacuum_padding`): every returned gate list is its input list
+      plus exactly `crop` zeros -- lists of one common length keep one common length -- for any
+      number of loops, any delays, any argument lists. *)
+Theorem C13_vacuum_padding_lengths :
+  forall (sg : list Z) (loops : list (list Z * list Z)) (delays : list nat),
+    length delays = length loops ->
+    let r := vacuum_padding sg loops delays in
+    let tot := snd r in
+    length (fst (fst r)) = length sg + tot /\
+    length (snd (fst r)) = length loops /\
+    forall i rg bs, nth_error loops i = Some (rg, bs) ->
+      exists rg' bs', nth_error (snd (fst r)) i = Some (rg', bs') /\
+        length rg' = length rg + tot /\ length bs' = length bs + tot.
+Proof. exact vacuum_padding_lengths. Qed.
+Print Assumptions C13_vacuum_padding_lengths.
+
 (* ---- refuted for the CURRENT code (reproduced on the implementation, known_findings.d/C13.json) *)
 Theorem C13_space_shots_refuted : exists cs,
   Forall (fun c => Forall (fun r => r < 2) (r_regs c)) cs /\
